@@ -183,17 +183,24 @@ def run(prog, chk):
         raise AnalysisBroken("KSI_SignatureVerifier_verify: expected one call of Policy_verifySignature, found %d" % len(pv))
     tmpv = lvalue_key(pv[0][2]["a"][2], fv)
     POL, FB, TMP = Ptr("policy"), Ptr("fallback"), Ptr("tmp")
-    for st, st2, rc, fb in itertools.product((KSI_OK, SOME_ERR), (KSI_OK, SOME_ERR), (OK, NA, FAIL), (0, FB)):
+    EC_NONE, EC_SOME = prog.const("KSI_VER_ERR_NONE"), prog.const("KSI_VER_ERR_GEN_2")
+    for st, st2, rc, fb, ec in itertools.product((KSI_OK, SOME_ERR), (KSI_OK, SOME_ERR), (OK, NA, FAIL), (0, FB), (EC_NONE, EC_SOME)):
         if st != KSI_OK and st2 != KSI_OK:
             continue
+        if rc == OK and ec != EC_NONE:
+            continue
 
-        def model(I, p, node, name, args, callee_val, st=st, st2=st2, rc=rc):
+        def model(I, p, node, name, args, callee_val, st=st, st2=st2, rc=rc, ec=ec):
             if name == "Policy_verifySignature":
                 I.write(p, tmpv + "->finalResult.resultCode", rc)
+                I.write(p, tmpv + "->finalResult.errorCode", ec)
+                I.write(p, tmpv + "->resultCode", rc)
                 return st
             if name == "PolicyVerificationResult_addLatestPolicyResult":
                 # bookkeeping only: must not change the verdict (checked on its mod-summary below)
                 I.write(p, tmpv + "->finalResult.resultCode", rc)
+                I.write(p, tmpv + "->finalResult.errorCode", ec)
+                I.write(p, tmpv + "->resultCode", rc)
                 return st2
             if name in ("KSI_PolicyVerificationResult_ref",):
                 return args[0]
@@ -208,9 +215,9 @@ def run(prog, chk):
         und = [u for p in paths for u in p.undetermined]
         if und:
             raise AnalysisBroken("KSI_SignatureVerifier_verify: branch on a value outside the declared inputs: %s" % (und[0],))
-        inst = "SignatureVerifier_verify[status=%s,bookkeeping=%s,verdict=%s,fallback=%s]" % (
+        inst = "SignatureVerifier_verify[status=%s,bookkeeping=%s,verdict=%s,error code=%s,fallback=%s]" % (
             "OK" if st == KSI_OK else "error", "OK" if st2 == KSI_OK else "error", {OK: "OK", NA: "NA", FAIL: "FAIL"}[rc],
-            "present" if fb else "absent")
+            "none" if ec == EC_NONE else "set", "present" if fb else "absent")
         outs = set()
         for p in paths:
             nver = len(p.calls("Policy_verifySignature"))
